@@ -344,18 +344,27 @@ func run(c *fw.Ctx) {
 	type b5case struct{ idx int }
 	var b5 []b5case
 	nConc := 0
-	nU := c.N(1000, 10000)
-	for it := 0; it < nU; it++ {
-		n := 3 + r.Intn(4)
-		names := subset(r, pkgNames, n)
-		o := genOpts{names: names, depNames: names, aliases: r.Intn(4) != 0, noRange: r.Intn(3) == 0, bundles: r.Intn(4) != 0, maxDeps: 4}
-		if r.Intn(12) == 0 {
-			o.depNames = append(append([]string(nil), names...), "ghost") // a package the service does not serve
-		}
-		u := genUniverse(r, o)
+	nRaceResolve := 0
+	nRandom, nDirected := c.N(1000, 10000), c.N(250, 2500)
+	for it := 0; it < nRandom+nDirected; it++ {
+		var u universe
 		mal := "none"
-		if r.Intn(7) == 0 {
-			mal = malform(r, u)
+		directed := it >= nRandom
+		if directed {
+			// (7) fresh installs below a bundle
+			u = genBelowBundle(r)
+			c.Count("universe.directed")
+		} else {
+			n := 3 + r.Intn(4)
+			names := subset(r, pkgNames, n)
+			o := genOpts{names: names, depNames: names, aliases: r.Intn(4) != 0, noRange: r.Intn(3) == 0, bundles: r.Intn(4) != 0, maxDeps: 4}
+			if r.Intn(12) == 0 {
+				o.depNames = append(append([]string(nil), names...), "ghost") // a package the service does not serve
+			}
+			u = genUniverse(r, o)
+			if r.Intn(7) == 0 {
+				mal = malform(r, u)
+			}
 		}
 		c.Count("universe.malformed=" + mal)
 		ue := u.enc()
@@ -408,6 +417,22 @@ func run(c *fw.Ctx) {
 				c.Count("b5.roots")
 			}
 		}
+		// (8) the client's answers do not change by resolving through it
+		if mal != "npm-nil" {
+			i8, res8 := c.Opf("C18 probe stable %s", ue)
+			c.Check("stable", i8)
+			if res8 == "ok ambiguous" {
+				c.Count("stable.ambiguous")
+			} else {
+				c.Count("stable")
+			}
+			if directed && ((!c.Thor && nRaceResolve < 3) || (c.Thor && it%25 == 0)) {
+				nRaceResolve++
+				i9, _ := c.Opf("C18 probe raceresolve %s", ue)
+				c.Check("race", i9)
+				c.Count("raceresolve")
+			}
+		}
 		// (6) B6
 		if it%c.N(12, 40) == 0 && len(roots) > 0 && mal != "npm-nil" && mal != "gt-in-version" && mal != "dup-package" && mal != "dup-version" {
 			var segs [][]call
@@ -442,6 +467,8 @@ func run(c *fw.Ctx) {
 	wg.Wait()
 	c.Note(fmt.Sprintf("b5 resolutions (incl. witnesses): same graph %d, both err %d, both timeout %d, differ %d, outside the independent reading %d",
 		b5Same.Load(), b5BothErr.Load(), b5BothTimeout.Load(), b5Differ.Load(), b5Skipped.Load()))
+	c.Note(fmt.Sprintf("probe stable: %d runs (%d outside Unambiguous S), %d bundled keys read, %d resolutions through the probed clients (%d hit their deadline), %d fresh installs below a bundled node",
+		probeRuns.Load(), probeAmbiguous.Load(), probeBundledKeys.Load(), probeResolves.Load(), probeTimeouts.Load(), probeFreshBelowBundle.Load()))
 	if n := leaked.Load(); n > 0 {
 		c.Note(fmt.Sprintf("resolver goroutines abandoned after ignoring their context deadline: %d", n))
 	}
